@@ -3,3 +3,4 @@ pub mod lattice;
 pub mod refcal;
 pub mod refleap;
 pub mod reftext;
+pub mod reffmt;
